@@ -53,8 +53,9 @@ theorem toNextCall_same (s : St) : SameL s (toNextCall s) ∧
 theorem LInv_same {s s' : St} (hI : LInv s) (h : SameL s s')
     (hc : s'.cpc = s.cpc ∨ (post s.cpc = true ∧ post s'.cpc = true ∧ (s.rAlive = true → inCall s'.cpc = true) ∧
       ((s'.cpc = .rInitSet ∨ s'.cpc = .rStart) → s.cfg.factory = true) ∧
-      (∀ i, s'.cpc = .exitJoin i → ∀ j < i, ∀ wid, s.procs[j]? = some wid → ExitedAll s.workers wid) ∧
-      (s'.cpc = .done → ∀ wid ∈ s.procs, ExitedAll s.workers wid))) : LInv s' :=
+      (∀ i, s'.cpc = .exitJoin i → ∀ j < i, ∀ wid, s.procs[j]? = some wid → s.cfg.joinTimeout = false →
+        ExitedAll s.workers wid) ∧
+      (s'.cpc = .done → ∀ wid ∈ s.procs, s.cfg.joinTimeout = false → ExitedAll s.workers wid))) : LInv s' :=
   LInv_frame hI h.cfg h.workers h.procs h.widCounter h.rpc h.rAlive (by rw [h.replQ]) hc
 
 /-- an in-call step of the consumer -/
@@ -92,7 +93,7 @@ theorem workerExited_all {s : St} (hI : LInv s) {wid : Nat} (h : workerExited s 
     obtain ⟨hwm, hwid⟩ := getWorker_some hg
     intro x hx hxw
     have := wid_inj hI.nodup hx hwm (by rw [hxw, hwid])
-    subst this; simpa using h
+    subst this; exact gone_of_exited (by simpa using h)
   · cases h
 
 theorem exitJoinFrom_spec (s : St) (fuel i : Nat) :
@@ -140,7 +141,7 @@ theorem LInv_enterStart_aux {s : St} {i : Nat} {w : Worker} (hI : LInv s) (hpc :
     LInv { (setWorker s { w with pc := .bfClear }) with cpc := c' } := by
   obtain ⟨hwm, hwid⟩ := getWorker_some hg
   have hwpc : w.pc = .notStarted := hI.starting i hpc w hwm (by omega)
-  have hne : w.pc ≠ .exited := by rw [hwpc]; simp
+  have hne : gone w.pc = false := by rw [hwpc]; rfl
   have hral : s.rAlive = false := rAlive_false hI (by rw [hpc]; rfl)
   have hpre := hI.pre (by rw [hpc]; trivial)
   have hmem : ∀ x, x ∈ upd w.wid { w with pc := .bfClear } s.workers →
@@ -150,7 +151,7 @@ theorem LInv_enterStart_aux {s : St} {i : Nat} {w : Worker} (hI : LInv s) (hpc :
     · exact Or.inl rfl
     · exact Or.inr hx
   have hex : ∀ k, ExitedAll s.workers k → ExitedAll (upd w.wid { w with pc := .bfClear } s.workers) k :=
-    fun k hk => ExitedAll_upd hk hwm hne rfl
+    fun k hk => ExitedAll_upd hk hwm (not_gone_imp hne) rfl
   have hns : ∀ x ∈ s.workers, x.wid ≠ w.wid → x.pc = .notStarted → i + 1 ≤ x.wid ∨ s.rpc = .start x.wid := by
     intro x hx hxw hxpc
     rcases hI.notStarted x hx hxpc with ⟨i0, hi0, hle⟩ | hh
@@ -474,7 +475,7 @@ theorem LInv_stepC {s s' : St} (hI : LInv s) (h : stepC s = some s') : LInv s' :
         · intro hh; rw [hral] at hh; cases hh
         · intro hh; rcases hh with hh | hh <;> cases hh
         · intro j hj; cases hj
-        · intro _ wid hwid
+        · intro _ wid hwid _
           exact workerExited_all hI (List.all_eq_true.1 hall wid hwid)
       · cases h
     · try dsimp only at h
@@ -495,13 +496,13 @@ theorem LInv_stepC {s s' : St} (hI : LInv s) (h : stepC s = some s') : LInv s' :
           · intro hh; rw [hral] at hh; cases hh
           · dsimp only; rw [e1]; intro hh; rcases hh with hh | hh <;> cases hh
           · dsimp only; rw [e1]; intro j hj; cases hj
-          · intro _ wid hwid
+          · intro _ wid hwid _
             obtain ⟨j, hj⟩ := List.getElem?_of_mem hwid
             exact workerExited_all hI1 (e2 j (Nat.zero_le _) wid hj)
         · refine Or.inr ⟨by rw [hpc]; rfl, by dsimp only; rw [e1]; rfl, ?_, ?_, ?_, ?_⟩
           · intro hh; rw [hral] at hh; cases hh
           · dsimp only; rw [e1]; intro hh; rcases hh with hh | hh <;> cases hh
-          · dsimp only; rw [e1]; intro j hj j' hj' wid hwid
+          · dsimp only; rw [e1]; intro j hj j' hj' wid hwid _
             cases hj
             exact workerExited_all hI1 (e2 j' (Nat.zero_le _) hj' wid hwid)
           · dsimp only; rw [e1]; intro hj; cases hj
@@ -513,12 +514,14 @@ theorem LInv_stepC {s s' : St} (hI : LInv s) (h : stepC s = some s') : LInv s' :
       split at h
       · rename_i hex
         simp only [Option.some.injEq] at h; subst h
-        have hprev : ∀ j, j < i + 1 → ∀ wid', s.procs[j]? = some wid' → ExitedAll s.workers wid' := by
-          intro j hj wid' hw'
+        have hprev : ∀ j, j < i + 1 → ∀ wid', s.procs[j]? = some wid' → s.cfg.joinTimeout = false →
+            ExitedAll s.workers wid' := by
+          intro j hj wid' hw' hjt
           rcases Nat.lt_or_ge j i with hlt | hge
-          · exact hI.joined i hpc j hlt wid' hw'
+          · exact hI.joined i hpc j hlt wid' hw' hjt
           · have : j = i := by omega
             subst this; rw [hw] at hw'; cases hw'
+            rw [hjt, Bool.or_false] at hex
             exact workerExited_all hI hex
         refine LInv_same hI (by exact ⟨rfl, rfl, rfl, rfl, rfl, rfl, rfl⟩) ?_
         rcases exitJoinFrom_spec s (s.procs.length + 1) (i + 1) with ⟨e1, e2⟩ | ⟨k, e1, _, e2⟩
@@ -526,18 +529,18 @@ theorem LInv_stepC {s s' : St} (hI : LInv s) (h : stepC s = some s') : LInv s' :
           · intro hh; rw [hral] at hh; cases hh
           · dsimp only; rw [e1]; intro hh; rcases hh with hh | hh <;> cases hh
           · dsimp only; rw [e1]; intro j hj; cases hj
-          · intro _ wid' hwid
+          · intro _ wid' hwid hjt
             obtain ⟨j, hj⟩ := List.getElem?_of_mem hwid
             rcases Nat.lt_or_ge j (i + 1) with hlt | hge
-            · exact hprev j hlt wid' hj
+            · exact hprev j hlt wid' hj hjt
             · exact workerExited_all hI (e2 j hge wid' hj)
         · refine Or.inr ⟨by rw [hpc]; rfl, by dsimp only; rw [e1]; rfl, ?_, ?_, ?_, ?_⟩
           · intro hh; rw [hral] at hh; cases hh
           · dsimp only; rw [e1]; intro hh; rcases hh with hh | hh <;> cases hh
-          · dsimp only; rw [e1]; intro j hj j' hj' wid' hwid
+          · dsimp only; rw [e1]; intro j hj j' hj' wid' hwid hjt
             cases hj
             rcases Nat.lt_or_ge j' (i + 1) with hlt | hge
-            · exact hprev j' hlt wid' hwid
+            · exact hprev j' hlt wid' hwid hjt
             · exact workerExited_all hI (e2 j' hge hj' wid' hwid)
           · dsimp only; rw [e1]; intro hj; cases hj
       · cases h
